@@ -110,7 +110,7 @@ var containerTags = []string{"textarea", "title", "pre", "option", "td", "li", "
 // element, no attribute) and the canary are asserted for them.
 var rawTextTags = map[string]bool{"xmp": true, "iframe": true, "noembed": true, "noframes": true}
 
-var sinks = []string{"in:textarea", "in:title", "in:pre", "in:option", "in:td", "in:li", "in:button", "in:h1", "in:a", "in:label", "in:code", "in:summary", "in:noscript", "in:xmp", "in:iframe", "in:noembed", "in:noframes", "nsattr", "pretext", "prevtext", "preattr", "prebound", "boundmustache", "boundmustacheclass", "classmix", "stylemix", "stylemixstr", "twotext", "twoattr", "twoloop", "pre:xmp", "pre:iframe", "pre:noembed", "pre:noframes", "pre:textarea", "pre:title",
+var sinks = []string{"in:textarea", "in:title", "in:pre", "in:option", "in:td", "in:li", "in:button", "in:h1", "in:a", "in:label", "in:code", "in:summary", "in:noscript", "in:xmp", "in:iframe", "in:noembed", "in:noframes", "nsattr", "pretext", "prevtext", "preattr", "prebound", "boundmustache", "boundmustacheclass", "classmix", "stylemix", "stylemixstr", "twotext", "twoattr", "twoloop", "ns:svg:xmp", "ns:svg:iframe", "ns:math:noembed", "ns:svg:noframes", "ns:svg:title", "ns:svg:textarea", "ns:svg:desc:xmp", "pre:xmp", "pre:iframe", "pre:noembed", "pre:noframes", "pre:textarea", "pre:title",
 	"textpipe", "textcall", "textternary", "attrpipe", "boundpipe", "boundcall", "boundternary", "vtextpipe", "vtextcall", "vtextternary", "vtextor", "looppipe", "vtext:xmp", "vtext:iframe", "vtext:noembed", "vtext:noframes", "vtext:textarea", "vtext:title", "vtext:noscript", "elsefor", "elseforattr", "elseiffor", "text", "vtext", "attr", "bound", "vbind", "class", "style", "loop", "loopattr", "loopchild", "incstatic", "incbound", "incattr", "inctplroot", "inctplrootattr", "slotinc", "slotincplain", "slotprop", "layout", "layoutattr", "ifself", "elseself"}
 var encs = []string{"bare", "if", "else", "tplif", "nested", "loopchild", "elseif"}
 
@@ -173,6 +173,18 @@ func build(c Case) program {
 			open, close = `<details><summary data-m="s">`, `</summary></details>`
 		}
 		return program{tpl: wrap(c.Enc, open+n.LS+`{{ v }}`+n.RS+close), useNb: true, rawish: rawTextTags[tag]}
+	}
+	if strings.HasPrefix(c.Sink, "ns:") {
+		// element names that are raw-text / RCDATA elements only in the HTML namespace, written
+		// inside <svg> / <math>: there the parser reads their content as ordinary markup
+		parts := strings.Split(strings.TrimPrefix(c.Sink, "ns:"), ":")
+		open, close := "", ""
+		for _, t := range parts[:len(parts)-1] {
+			open += "<" + t + ">"
+			close = "</" + t + ">" + close
+		}
+		tag := parts[len(parts)-1]
+		return program{tpl: wrap(c.Enc, open+"<"+tag+` data-m="s">`+n.LS+`{{ v }}`+n.RS+"</"+tag+">"+close), useNb: true, rawish: true}
 	}
 	if strings.HasPrefix(c.Sink, "pre:") {
 		// a raw-text / RCDATA element inside a <pre> that has several children (written by the
